@@ -49,7 +49,8 @@ MUST_REACH = {"scenarios": 500, "hook_exceptions_raised": 100, "claims_observed"
               "packet_hook_scenarios": 6, "object_hook_scenarios": 2, "script_addon_scenarios": 20, "script_addon_faults_survived": 18,
               "script_addon_hook_runs": 20, "script_reloads_observed": 6,
               "script_addon_double_fault_scenarios": 10, "script_second_reloads_observed": 2,
-              "arrival_messages_with_orphaned_tasks": 30}
+              "arrival_messages_with_orphaned_tasks": 30,
+              "undecodable_body_scenarios": 30}
 
 _ser = UDPMessageSerializer()
 _es = Settings()
@@ -83,6 +84,15 @@ class ScriptedAddon:
         b = behaviour
         if b == "none":
             return None
+        if b == "peek_body":
+            message.blocks                      # (raises by itself when the body does not parse)
+            return None
+        if b == "peek_then_raise":
+            try:
+                message.blocks
+            except Exception:
+                pass
+            raise ValueError("scripted failure after looking at the body")
         if b == "false":
             return False
         if b == "zero":
@@ -182,14 +192,14 @@ class RecLogger:
 
 
 class Harness:
-    def __init__(self, n_addons):
+    def __init__(self, n_addons, deferred=None):
         self.log = []
         self.addons = [ScriptedAddon(f"A{i}", self.log) for i in range(n_addons)]
         settings = ProxySettings()
         settings.ALLOW_AUTO_REQUEST_OBJECTS = False
         # alternate between the proxy's two parsing configurations (bodies on demand / eagerly)
         Harness._n = getattr(Harness, "_n", 0) + 1
-        settings.ENABLE_DEFERRED_PACKET_PARSING = bool(Harness._n % 2)
+        settings.ENABLE_DEFERRED_PACKET_PARSING = bool(Harness._n % 2) if deferred is None else deferred
         self.rig = Rig(addons=self.addons, settings=settings)
         self.logger = RecLogger()
         self.rig.session_manager.message_logger = self.logger
@@ -408,6 +418,55 @@ def followup(ctx, h, wit):
         ctx.violation("hooks-not-called-for-later-message", "not every addon's hook ran for later messages",
                       dict(wit, log=h.log[:8]))
 
+
+
+
+def check_undecodable_with_failing_hooks(ctx, behaviour, direction_in, reliable, cut):
+    """A datagram whose header is fine and whose body is cut short passes through a proxy that parses bodies on demand; an addon
+    hook that looks inside fails.  That failure is the addon's: the next addon still gets its turn and the datagram goes on the
+    wire once, as it came."""
+    h = Harness(2, deferred=True)
+    try:
+        h.addons[0].lludp = behaviour
+        # (a message the proxy has no reason to look into itself)
+        flags = int(PacketFlags.RELIABLE) if reliable else 0
+        if direction_in:
+            m = Message("AlertMessage", Block("AlertData", Message="undecodable body " + "x" * 20), packet_id=h.in_id, flags=flags)
+            h.in_id += 1
+        else:
+            m = Message("ScriptDialogReply", Block("AgentData", AgentID=h.session.agent_id, SessionID=h.session.id),
+                        Block("Data", ObjectID=h.session.agent_id, ChatChannel=5, ButtonIndex=1, ButtonLabel="undecodable " + "x" * 20),
+                        packet_id=h.out_id, flags=flags)
+            h.out_id += 1
+        data = bytes(_ser.serialize(m))
+        data = data[:len(data) - cut]
+        wit = {"hook": "handle_lludp_message", "behaviour": behaviour, "direction": "in" if direction_in else "out",
+               "reliable": reliable, "cut": cut, "datagram": data[:120]}
+        before = len(h.rig.sendlog)
+        exc = h.feed(direction_in, data)
+        sent = []
+        for (_, out, addr) in h.rig.sendlog[before:]:
+            payload = out
+            if addr == h.client:
+                un = socks_unwrap_ref(out)
+                payload = un[1] if un is not None else out
+            if payload[6:] == data[6:] and payload[1:5] == data[1:5]:
+                sent.append(payload)
+        second_ran = len([e for e in h.log if e[0] == "A1" and e[1] == "lludp"])
+        ctx.ev()
+        ctx.count("scenarios")
+        ctx.count("undecodable_body_scenarios")
+        if exc is not None or len(sent) != 1 or second_ran != 1:
+            ctx.violation("undecodable-body:" + behaviour + (":raised" if exc is not None else ":not-once" if len(sent) != 1
+                                                             else ":later-addon-skipped"),
+                          "with a hook failing on a datagram whose body does not parse, the datagram was not handed to the next "
+                          "addon and put on the wire exactly once", dict(wit, exc=repr(exc)[:300], emitted=len(sent),
+                                                                       second_addon_hook_runs=second_ran))
+            return
+        followup(ctx, h, wit)
+        ctx.nontrivial(("undecodable", behaviour, direction_in, reliable, cut))
+    finally:
+        h.close()
 
 
 # ------------------------------------------------------------------ addons loaded from script files that go bad while running
@@ -1079,6 +1138,11 @@ def run(ctx):
             others.append(("rlv", combo, n))
     for beh in ("none", "raise"):
         others.append(("obj", beh))
+    for beh in ("none", "peek_body", "peek_then_raise", "raise_value"):
+        for d in (False, True):
+            for rel in (False, True):
+                for cut in (1, 7):
+                    others.append(("undecodable", beh, d, rel, cut))
     for fault in SCRIPT_FAULTS:
         for d in (False, True):
             others.append(("script", fault, d, fault in ("dep_dir_becomes_file", "script_syntax_error", "script_deleted")))
@@ -1106,6 +1170,8 @@ def run(ctx):
             check_rlv(ctx, o[1], o[2])
         elif o[0] == "script":
             check_script_addons(ctx, *o[1:])
+        elif o[0] == "undecodable":
+            check_undecodable_with_failing_hooks(ctx, *o[1:])
         else:
             check_object_hook(ctx, o[1])
     # ownership sequences
